@@ -92,14 +92,10 @@ func specialSeeds(r *vio.RNG, n int) []vconfig.VRFValue {
 	return res
 }
 
-func selectRecord(draws int) {
+func selectRecord(builds, seeds int) {
 	log.InitLog(log.FatalLog+1, log.Stdout)
 	rng := vio.NewRNG(vio.Seed() ^ 0xC40)
 	cfgID := 0
-	perCfg := draws / 14
-	if perCfg < 4 {
-		perCfg = 4
-	}
 	for n := 4; n <= 10; n++ {
 		for _, height := range []uint32{0, uint32(1 + rng.Intn(1000000))} {
 			cfgID++
@@ -125,7 +121,11 @@ func selectRecord(draws int) {
 				"pool": pool, "same": reflect.DeepEqual(chain.PosTable, chain2.PosTable) && chain.N == chain2.N && chain.C == chain2.C})
 
 			// real buildParticipantConfig on random previous blocks
-			for d := 0; d < perCfg; d++ {
+			nb := builds
+			if chain.N == 3*chain.C && nb > 3 { // no selection exists (see notes/built/C40.md): every call runs through all 512 slots
+				nb = 3
+			}
+			for d := 0; d < nb; d++ {
 				info := &vconfig.VbftBlockInfo{Proposer: peers[rng.Intn(n)].Index, VrfValue: rng.Bytes(64), VrfProof: rng.Bytes(8), LastConfigBlockNum: 0}
 				payload, _ := json.Marshal(info)
 				var root common.Uint256
@@ -152,8 +152,8 @@ func selectRecord(draws int) {
 			}
 
 			// real calcParticipantPeers / calcParticipant on chosen seeds
-			for si, seed := range specialSeeds(rng, perCfg) {
-				for _, k := range []uint32{0, 7, 8, uint32(rng.Intn(512)), 503, 504, 511, 512, 513, 100000} {
+			for si, seed := range specialSeeds(rng, seeds) {
+				for _, k := range []uint32{uint32(rng.Intn(8)), uint32(rng.Intn(512)), 504 + uint32(rng.Intn(8)), 512 + uint32(rng.Intn(3))*1000} {
 					var id uint32
 					if pn := vio.Safe(func() { id = vbft.VerifCalcParticipant(seed, chain.PosTable, k) }); pn != "" {
 						vio.Emit(map[string]interface{}{"op": "panic", "id": cfgID, "what": "part", "vrf": vrfInts(seed), "k": k, "panic": pn})
